@@ -18,7 +18,7 @@ FAMILIES = {
     'C05': ['batch', 'funds', 'queries'],
     'C06': ['batch', 'funds', 'instantiate'],
     'C07': ['recover', 'ibc', 'stake'],
-    'C08': ['auth', 'ownership', 'recover', 'rewards', 'batch', 'funds', 'instantiate'],
+    'C08': ['auth', 'ownership', 'recover', 'rewards', 'batch', 'funds', 'instantiate', 'config'],
     'C09': ['rewards', 'batch', 'config', 'migrate'],
     'C10': ['halt', 'auth', 'instantiate'],
     'C11': ['rewards', 'fee_withdraw'],
